@@ -9,6 +9,15 @@
 //!   `cover <t>`             per match `name:unique overlap:f_match bits`            (spec column)
 //!   `stats <t>`             per match `rank:unique_bp:remaining_bp:f_unique bits`   (spec column)
 //!   `wstats <t>`            per match `n_unique_weighted:sum_weighted:total_weighted:f_unique_weighted bits`
+//!   `counter`               `counter_for_query(q)`: `id:count` per dataset sharing a hash, by id (spec column)
+//!   `colors`                `prepare_gather_counters(q)`: the dataset set that HashToColor / QueryColors
+//!                           record for every query hash, in query order, run-length encoded
+//!                           `<n>x<id>+<id>…` (`<n>x-` = not in the index)                  (model column)
+//!
+//! Besides the small cases (universe <= 40 hashes) there is a LARGE family: queries of 1023..9000
+//! hashes (sizes straddling 1024 / 4096 / 8192 and 4100..9000) against 2..5 datasets that are ranges /
+//! strided subsets of the sorted query placed on both sides of positions 1024 / 4096 / 8192, so that a
+//! cover needs several rounds with overlaps far into the query (look-up batching, hash/colour pairing).
 //! The index is a real `RevIndex::create` on a scratch directory, built once per case.
 use sourmash::index::revindex::{RevIndex, RevIndexOps};
 use sourmash::index::GatherResult;
@@ -134,6 +143,8 @@ fn gen_case(r: &mut Rng, o: &mut Out) {
     ));
     // the trailing `@n` only names the collection the request is about (ignored by both sides)
     let tag = format!("@{}", o.ncases - 1);
+    o.op(&format!("counter {}", tag));
+    o.op(&format!("colors {}", tag));
     for t in 0..=5u64 {
         o.op(&format!("gather {} {}", t, tag));
         o.op(&format!("cover {} {}", t, tag));
@@ -150,6 +161,168 @@ fn gen_case(r: &mut Rng, o: &mut Out) {
     }
 }
 
+
+/// `{q[i] : a <= i < b, (i - a) % stride == phase}`
+fn span(q: &[u64], a: usize, b: usize, stride: usize, phase: usize) -> Vec<u64> {
+    (a..b.min(q.len())).filter(|i| (i - a) % stride == phase).map(|i| q[i]).collect()
+}
+
+/// LARGE family: a query of `nq` hashes; datasets are (unions of) ranges / strided subsets of the
+/// sorted query around positions 1024 / 4096 / 8192 (+ a few hashes foreign to the query).
+fn gen_large(r: &mut Rng, o: &mut Out, nq: usize, maxlen: usize) {
+    let scaled = *r.pick(&[1u64, 2]);
+    let track = r.chance(1, 2);
+    // the query: increasing, gaps of 1..4 (a gap >= 2 leaves room for a foreign hash), sometimes jumps
+    let wide = r.chance(1, 3);
+    let mut q: Vec<u64> = Vec::with_capacity(nq);
+    let mut h = r.range(0, 50);
+    for _ in 0..nq {
+        h += if wide && r.chance(1, 60) { r.bits(40) + 1 } else { r.range(1, 4) };
+        q.push(h);
+    }
+    let foreign: Vec<u64> = (1..nq).filter(|&i| q[i] - q[i - 1] >= 2).map(|i| q[i] - 1).collect();
+    let marks: Vec<usize> = [1024usize, 4096, 8192].iter().copied().filter(|&m| m < nq).collect();
+    let len_of = |r: &mut Rng| -> usize {
+        (match r.below(4) {
+            0 => r.range(40, 300),
+            1 | 2 => r.range(300, 1200),
+            _ => r.range(1200, 3000),
+        } as usize)
+            .min(maxlen)
+            .min(nq)
+    };
+    // a range [a, a + len): half of them straddle a mark (the largest one favoured: every earlier
+    // position has been passed by then), a quarter lie beyond the largest mark, a quarter anywhere
+    let place = |r: &mut Rng, len: usize| -> usize {
+        let c = match (r.below(4), marks.last()) {
+            (0, _) | (_, None) => r.below(nq as u64) as usize,
+            (1, Some(&top)) => top + r.below((nq - top) as u64) as usize,
+            (_, Some(&top)) => {
+                let m = if r.chance(1, 2) { top } else { *r.pick(&marks) };
+                (m + r.below(3) as usize).saturating_sub(1)
+            }
+        };
+        c.saturating_sub(r.below(len as u64 + 1) as usize).min(nq - len)
+    };
+    let mut ds: Vec<Vec<u64>> = vec![];
+    let mut spans: Vec<(usize, usize)> = vec![];
+    if r.chance(1, 3) && nq >= 600 {
+        // d0 large, d2 overlaps d0's upper end, d1 elsewhere with |d1| = |d2 \ d0|: after d0 is taken
+        // d1 and d2 tie, the lower id has to come first
+        let l0 = len_of(r).max(200);
+        let a0 = place(r, l0);
+        let l2 = (len_of(r) / 2).max(60).min(nq - a0);
+        let x = r.range(1, (l2 as u64 - 1).min(l0 as u64 - 1)) as usize; // shared with d0
+        let a2 = (a0 + l0 - x).min(nq - l2);
+        let k = l2 - (a0 + l0).min(a2 + l2).saturating_sub(a2);
+        let k = k.max(1);
+        // d1: k hashes outside d0 and d2, below d0 if there is room, above d2 otherwise
+        let a1 = if a0 >= k { r.below((a0 - k) as u64 + 1) as usize } else { (a2 + l2).min(nq - k) };
+        for (a, l) in [(a0, l0), (a1, k), (a2, l2)] {
+            ds.push(span(&q, a, a + l, 1, 0));
+            spans.push((a, a + l));
+        }
+    }
+    let nd = r.range(2, 5) as usize;
+    while ds.len() < nd {
+        let prev = if spans.is_empty() { None } else { Some(*r.pick(&spans)) };
+        let (a, b, stride, phase) = match (r.below(20), prev) {
+            (0..=4, Some((a, b))) => {
+                // shifted copy: overlaps the earlier range by a quarter to three quarters
+                let l = b - a;
+                let a2 = (a + l / 4 + r.below(l as u64 / 2 + 1) as usize).min(nq - 1);
+                (a2, (a2 + l).min(nq), 1, 0)
+            }
+            (5 | 6, Some((a, b))) => {
+                // nested inside
+                let l = b - a;
+                let a2 = a + r.below(l as u64 / 2 + 1) as usize;
+                (a2, (a2 + l / 2).max(a2 + 1).min(b), 1, 0)
+            }
+            (7 | 8, Some((a, b))) => {
+                // every second / third hash of the earlier range
+                let st = r.range(2, 3) as usize;
+                (a, b, st, r.below(st as u64) as usize)
+            }
+            (9, Some((a, b))) => (a, b, 1, 0), // duplicate
+            (10..=13, _) => {
+                // strided range: twice as wide for the same number of hashes
+                let l = len_of(r);
+                let w = (2 * l).min(nq);
+                let a = place(r, w);
+                (a, a + w, 2, r.below(2) as usize)
+            }
+            _ => {
+                let l = len_of(r);
+                let a = place(r, l);
+                (a, a + l, 1, 0)
+            }
+        };
+        let mut d = span(&q, a, b, stride, phase);
+        if r.chance(1, 4) {
+            // a second piece far away (union of two ranges)
+            let l = len_of(r) / 2 + 1;
+            let a = place(r, l);
+            d = union(&d, &span(&q, a, a + l, 1, 0));
+        }
+        if r.chance(1, 2) && !foreign.is_empty() {
+            let k = r.range(1, 200) as usize;
+            let a = r.below(foreign.len() as u64) as usize;
+            d = union(&d, &foreign[a..(a + k).min(foreign.len())]);
+        }
+        if d.is_empty() {
+            d = vec![q[a.min(nq - 1)]];
+        }
+        ds.push(d);
+        spans.push((a, b.min(nq)));
+    }
+    o.case(&format!("{} {}", scaled, track as u8));
+    for d in &ds {
+        o.op(&format!("d {}", show_nats(d.iter().copied())));
+    }
+    let ab: Vec<u64> = q
+        .iter()
+        .map(|_| match r.below(12) {
+            0 => r.bits(30).max(1),
+            1 | 2 | 3 => 1,
+            _ => r.range(1, 6),
+        })
+        .collect();
+    o.op(&format!(
+        "q {} {}",
+        show_nats(q.iter().copied()),
+        if track { show_nats(ab.iter().copied()) } else { "-".into() }
+    ));
+    let tag = format!("@{}", o.ncases - 1);
+    o.op(&format!("counter {}", tag));
+    o.op(&format!("colors {}", tag));
+    // threshold 0 (full cover) and one at / next to an initial overlap (stop rules)
+    let mut ov: Vec<u64> = ds.iter().map(|d| d.iter().filter(|h| q.binary_search(h).is_ok()).count() as u64).collect();
+    ov.sort();
+    let t1 = match r.below(5) {
+        0 => ov[0],
+        1 => ov[ov.len() - 1].saturating_sub(1),
+        2 => ov[ov.len() / 2] / 2,
+        3 => r.range(1, 300),
+        _ => ov[ov.len() / 2],
+    };
+    for op in ["gather", "cover", "stats", "wstats"] {
+        o.op(&format!("{} 0 {}", op, tag));
+    }
+    o.op(&format!("gather {} {}", t1, tag));
+    o.op(&format!("cover {} {}", t1, tag));
+}
+
+/// query sizes of the LARGE family: straddling 1024 / 4096 / 8192, and anything in 4100..9000
+fn large_size(r: &mut Rng, i: usize) -> usize {
+    const EDGE: [usize; 9] = [4097, 8193, 1025, 4096, 8191, 1023, 4095, 1024, 8192];
+    if i % 2 == 0 {
+        r.range(4100, 9000) as usize
+    } else {
+        EDGE[(i / 2) % EDGE.len()]
+    }
+}
+
 fn gen(a: &Args) {
     let mut r = Rng::new(a.seed);
     let mut o = Out::new();
@@ -160,7 +333,23 @@ fn gen(a: &Args) {
     } else {
         300
     };
-    for _ in 0..n {
+    // LARGE cases are spread over the stream (./check splits it into chunks by line count)
+    let nlarge: u64 = if a.cases > 0 {
+        0
+    } else if a.tier == "thorough" {
+        300
+    } else {
+        20
+    };
+    let every = if nlarge > 0 { (n / nlarge).max(1) } else { u64::MAX };
+    let mut li = 0usize;
+    for i in 0..n {
+        if nlarge > 0 && i % every == every / 2 && (li as u64) < nlarge {
+            let nq = large_size(&mut r, li);
+            // dataset pieces of at most 2000 / 3000 hashes keep the list-based Lean side fast
+            gen_large(&mut r, &mut o, nq, if a.tier == "thorough" { 3000 } else { 2000 });
+            li += 1;
+        }
         gen_case(&mut r, &mut o);
     }
 }
@@ -184,7 +373,7 @@ fn bits(x: f64) -> String {
     format!("{:016x}", x.to_bits())
 }
 
-fn run_gather(s: &mut St, t: usize) -> Result<Vec<GatherResult>, String> {
+fn ensure_index(s: &mut St) -> Result<(), String> {
     if s.index.is_none() {
         let sigs: Vec<_> = s
             .ds
@@ -197,13 +386,73 @@ fn run_gather(s: &mut St, t: usize) -> Result<Vec<GatherResult>, String> {
             .map_err(|e| format!("err {:?}", e))?;
         s.index = Some((dir, idx));
     }
-    let idx = &s.index.as_ref().unwrap().1;
+    Ok(())
+}
+
+fn query_mh(s: &St) -> sourmash::sketch::minhash::KmerMinHash {
     let qmh = make_mh(&s.q, if s.track { Some(&s.ab) } else { None }, s.scaled);
     assert_eq!(qmh.size(), s.q.len());
+    qmh
+}
+
+fn run_gather(s: &mut St, t: usize) -> Result<Vec<GatherResult>, String> {
+    ensure_index(s)?;
+    let idx = &s.index.as_ref().unwrap().1;
+    let qmh = query_mh(s);
     let (counter, query_colors, hash_to_color) = idx.prepare_gather_counters(&qmh);
     // `None` would reach `CollectionSet::selection()`, which is `todo!()`; the value is unused by gather
     idx.gather(counter, query_colors, hash_to_color, t, &qmh, Some(Selection::default()))
         .map_err(|e| format!("err {:?}", e))
+}
+
+/// `counter_for_query`: `id:count` by ascending id
+fn run_counter(s: &mut St) -> Result<String, String> {
+    ensure_index(s)?;
+    let idx = &s.index.as_ref().unwrap().1;
+    let counter = idx.counter_for_query(&query_mh(s));
+    let mut c: Vec<(u32, usize)> = counter.iter().map(|(k, v)| (*k, *v)).collect();
+    c.sort_unstable();
+    Ok(if c.is_empty() {
+        "-".into()
+    } else {
+        c.iter().map(|(k, v)| format!("{}:{}", k, v)).collect::<Vec<_>>().join(",")
+    })
+}
+
+/// what `prepare_gather_counters` records per query hash: HashToColor (read through its serde form,
+/// the accessors are private) followed by QueryColors; run-length encoded over the sorted query
+fn run_colors(s: &mut St) -> Result<String, String> {
+    ensure_index(s)?;
+    let idx = &s.index.as_ref().unwrap().1;
+    let qmh = query_mh(s);
+    let (_counter, query_colors, hash_to_color) = idx.prepare_gather_counters(&qmh);
+    let h2c = serde_json::to_value(&hash_to_color).map_err(|e| format!("err {:?}", e))?;
+    let h2c = h2c.as_object().ok_or("err h2c-not-a-map")?;
+    let mut runs: Vec<(usize, String)> = vec![];
+    for h in &s.q {
+        let ids = match h2c.get(&h.to_string()) {
+            None => "-".to_string(),
+            Some(color) => {
+                let color = color.as_u64().ok_or("err colour-not-u64")?;
+                match query_colors.get(&color) {
+                    None => "nocolor".to_string(),
+                    Some(dsets) => {
+                        let mut ids: Vec<u32> = dsets.clone().into_iter().collect();
+                        ids.sort_unstable();
+                        ids.iter().map(|x| x.to_string()).collect::<Vec<_>>().join("+")
+                    }
+                }
+            }
+        };
+        match runs.last_mut() {
+            Some((n, last)) if *last == ids => *n += 1,
+            _ => runs.push((1, ids)),
+        }
+    }
+    if h2c.len() != s.q.iter().filter(|h| h2c.contains_key(&h.to_string())).count() {
+        return Ok("h2c-has-foreign-keys".into());
+    }
+    Ok(join(runs.iter().map(|(n, ids)| format!("{}x{}", n, ids)).collect()))
 }
 
 fn join(rows: Vec<String>) -> String {
@@ -233,6 +482,13 @@ fn step(s: &mut St, ws: &[&str]) -> String {
                 s.ab = vec![1; s.q.len()];
             }
             "ok".into()
+        }
+        "counter" | "colors" => {
+            if s.ds.is_empty() {
+                return "no-datasets".into();
+            }
+            let r = if ws[0] == "counter" { run_counter(s) } else { run_colors(s) };
+            r.unwrap_or_else(|e| e)
         }
         "gather" | "cover" | "stats" | "wstats" => {
             let t: usize = ws[1].parse().unwrap();
